@@ -60,7 +60,7 @@ def plan(tier, seed):
 
 
 def mandatory(tier):
-    return [f"model/{m}" for m in MODELS] + [f"op/{o}" for o in OPS] + [f"kind/{k}" for k in X.KINDS] + [f"grid_/at_new_samples/{k}" for k in ("resize", "other_domain", "same_shape")] + ["first_read_is_inverse", "image_transformer_reads_first", "pointset_transformer_reads_first", "condition_/via_transformer", "update/via_transformer", "condition/copy", "inplace/params.data"] + [f"svf_view/{v}" for v in VIEWS] + ["svf_view/grid_/flip_align_corners", "fit/parameters", "fit/finer", "linked_inverse/data_", "linked_inverse/inplace", "linked_inverse/kind/parameter", "linked_inverse/kind/buffer"]
+    return [f"model/{m}" for m in MODELS] + [f"op/{o}" for o in OPS] + [f"kind/{k}" for k in X.KINDS] + [f"grid_/at_new_samples/{k}" for k in ("resize", "other_domain", "same_shape")] + ["first_read_is_inverse", "image_transformer_reads_first", "pointset_transformer_reads_first", "condition_/via_transformer", "update/via_transformer", "condition/copy", "inplace/params.data"] + [f"svf_view/{v}" for v in VIEWS] + ["svf_view/grid_/flip_align_corners", "fit/parameters", "fit/finer", "fit/iterative", "linked_inverse/data_", "linked_inverse/inplace", "linked_inverse/kind/parameter", "linked_inverse/kind/buffer"]
 
 
 class Subject:
@@ -354,6 +354,23 @@ def history(ctx, rng, info, subj, i):
                 ctx.close("reset_gives_identity", t(x), np.broadcast_to(x.numpy(), t(x).shape), 1e-6, key="reset/identity", history=list(hist), **info)
             elif op == "fit":
                 # replaces the parameters by a given flow field (closed form for a dense displacement field)
+                if subj.name != "DisplacementFieldTransform" and subj.kind == "parameter" and not t.linear:
+                    # iterative fit of the other non-rigid models (a few gradient steps): it runs, and what the transform
+                    # shows afterwards is what its parameters now say
+                    from deepali.core.grid import Axes as Axes_
+                    from deepali.data.flow import FlowFields as FF_
+
+                    gt_ = t.grid()
+                    tgt = torch.tensor(rng.normal(size=(t.params.shape[0], D) + tuple(gt_.shape)) * 0.02, dtype=torch.float32)
+                    for _ in range(3):
+                        tgt = (tgt + tgt.roll(1, -1) + tgt.roll(1, -2)) / 3
+                    t.fit(FF_(tgt, gt_, Axes_.from_grid(gt_)), steps=3, lr=0.01)
+                    desc["iterative"] = True
+                    hist.append(desc)
+                    ctx.bucket("fit/iterative")
+                    compare_fresh(ctx, subj, x, hist, info, "disp")
+                    compare_fresh(ctx, subj, x, hist, info, "tensor")
+                    continue
                 if subj.name != "DisplacementFieldTransform" or subj.kind == "callable":
                     continue
                 from deepali.core.grid import Axes
